@@ -34,6 +34,7 @@ type Contract struct {
 	Uses     []string // prelude chunks forced into this function's own queries
 	Assumes  []string // labels of global invariants assumed at entry
 	Events   []Clause // call-event ghosts: "event <ghost>: <expr>" appended at every call site
+	REvents  []Clause // like Events but the expression is evaluated over the results / post-state
 	Trusted  bool // contract is assumed, body not checked against it
 	Reason   string
 	Props    []string
@@ -57,7 +58,7 @@ type ContractSet struct {
 	Files      []string
 }
 
-var clauseKw = regexp.MustCompile(`^(func|iface|callback|spawn|fieldinv|event|step|uses|assumes|requires|ensures|modifies|loop|invariant|decreases|unroll|trusted|props|safety|noinline|global-invariant|lemma|typeinv|end)\b`)
+var clauseKw = regexp.MustCompile(`^(func|iface|callback|spawn|fieldinv|revent|event|step|uses|assumes|requires|ensures|modifies|loop|invariant|decreases|unroll|trusted|props|safety|noinline|global-invariant|lemma|typeinv|end)\b`)
 
 // LoadContracts reads //@ comment blocks from the given files.
 func LoadContracts(files ...string) (*ContractSet, error) {
@@ -180,7 +181,7 @@ func (cs *ContractSet) loadFile(path string) error {
 				return fmt.Errorf("%s:%d: clause %q outside func block", path, r.line, r.kw)
 			}
 			switch r.kw {
-			case "requires", "ensures", "invariant", "decreases", "event", "step":
+			case "requires", "ensures", "invariant", "decreases", "event", "revent", "step":
 				c, err := mkClause(r)
 				if err != nil {
 					return err
@@ -191,6 +192,11 @@ func (cs *ContractSet) loadFile(path string) error {
 						return fmt.Errorf("%s:%d: step outside loop", path, r.line)
 					}
 					curLoop.Steps = append(curLoop.Steps, c)
+				case "revent":
+					if c.Label == "" {
+						return fmt.Errorf("%s:%d: revent needs '<ghost>: <expr>'", path, r.line)
+					}
+					cur.REvents = append(cur.REvents, c)
 				case "event":
 					if c.Label == "" {
 						return fmt.Errorf("%s:%d: event needs '<ghost>: <expr>'", path, r.line)
